@@ -272,7 +272,8 @@ def cmd_check(pid, tier):
                 sys.stderr.write(r.stderr[-3000:])
                 raise SystemExit("driver produced no result for %s (rc=%d)" % (s["target"], r.returncode))
             res = json.load(open(rj))
-            cov["evaluations"] += res["evaluations"]
+            inner = int(res.get("inner_evaluations", 0))
+            cov["evaluations"] += max(res["evaluations"], inner)
             cov["distinct_nontrivial"] += res["distinct_nontrivial"]
             cov["nontrivial"] += res["nontrivial"]
             cov["inconclusive"] += res["inconclusive"]
@@ -282,6 +283,7 @@ def cmd_check(pid, tier):
             for smp in res["samples"][: int(s.get("samples", 2))]:
                 cov["samples"].append({"target": s["target"], "case": smp[:3000]})
             cov["steps"].append({"target": s["target"], "binary": s["binary"], "cases": res["evaluations"],
+                                 "inner_evaluations": inner,
                                  "distinct_nontrivial": res["distinct_nontrivial"], "wall_s": res["wall_s"],
                                  "enumerate": bool(s.get("enumerate"))})
             if res["timed_out"]:
